@@ -181,6 +181,20 @@ def run_case(ctx, case):
             if curve_state(curve) != s1 or curve_state(other) != s2:
                 rec.violation("non-mutating operation %s modified an operand" % name, case, before=ser((s1, s2)), after=ser((curve_state(curve), curve_state(other))))
                 return
+        # objects returned by non-mutating operations do not alias the operand: modify them, re-read the operand
+        for name, fn in (("split()", lambda: curve.split()), ("split([])", lambda: curve.split([])),
+                         ("split(limits)", lambda: curve.split(list(curve.knotvector.limits))), ("fraction", lambda: curve.fraction()),
+                         ("neg", lambda: (-curve,)), ("copy", lambda: (copy(curve),))):
+            r = impl(fn)
+            if r[0] != "ok":
+                continue
+            for piece in r[1]:
+                if isinstance(piece, Curve):
+                    impl(lambda: piece.degree_increase(1))
+                    impl(lambda: piece.knot_insert([(frac(piece.knotvector[0]) + frac(piece.knotvector[-1])) / 2]))
+            if curve_state(curve) != s1:
+                rec.violation("modifying the result of %s changed the operand (aliasing)" % name, case, before=ser(s1), after=ser(curve_state(curve)))
+                return
         # copies are independent
         cp = copy(curve)
         r = impl(lambda: cp.degree_increase(1))
@@ -296,7 +310,7 @@ def run(ctx):
         if p >= 2 and rng.random() < 0.5:
             ops.append(("degdec", F(1), None))
         run_case(ctx, ser(dict(kind="seq", U=U, P=P, W=W, ops=ops, other=None, mutators_only=True)))
-    for i in range(budget(ctx, 40, 500)):
+    for i in range(budget(ctx, 30, 400)):
         U, P, W = rand_curve(rng, pmax=2, nintmax=2, dim=rng.choice([1, 1, 2]), force_zero=(i % 8 == 0))
         st = (tuple(U), tuple(P), None if W is None else tuple(W))
         ops = gen_ops(rng, ctx["drv"], st, rng.randint(2, maxlen))
